@@ -893,6 +893,8 @@ func stripRecv(e ast.Expr) ast.Expr {
 		return &ast.SelectorExpr{X: stripRecv(t.X), Sel: t.Sel}
 	case *ast.SliceExpr:
 		return &ast.SliceExpr{X: stripRecv(t.X), Low: t.Low, High: t.High, Max: t.Max, Slice3: t.Slice3}
+	case *ast.IndexExpr:
+		return &ast.IndexExpr{X: stripRecv(t.X), Index: t.Index}
 	case *ast.CallExpr:
 		args := make([]ast.Expr, len(t.Args))
 		for i, a := range t.Args {
